@@ -192,6 +192,12 @@ func (gangCache *GangCache) onPodUpdate(oldObj, newObj interface{}) {
 	}
 
 	gangName := util.GetGangNameByPod(pod)
+	if oldPod, ok := oldObj.(*v1.Pod); ok {
+		// the pod names another gang now (or none): it is no longer a child of its former gang
+		if oldGangName := util.GetGangNameByPod(oldPod); oldGangName != "" && oldGangName != gangName {
+			gangCache.onPodDelete(oldPod)
+		}
+	}
 	if gangName == "" {
 		return
 	}
